@@ -267,10 +267,9 @@ EmitMove:
           bool is_stuck_cycle = (work_flags & kWorkPostponed) != 0 && alt_var.out.is_reg() && !alt_var.is_done();
 
           if (!alt_var.out.is_initialized() || is_mutual_swap || is_stuck_cycle) {
-            // Break only one link of a stuck cycle per pass, plain moves can then resolve the rest.
-            if (is_stuck_cycle && !is_mutual_swap) {
-              work_flags &= ~uint32_t(kWorkPostponed);
-            }
+            // Break only one link of a stuck cycle per pass, plain moves can then resolve the rest (the flag is cleared
+            // together with the emission below, never without progress).
+            bool clear_postponed = is_stuck_cycle && !is_mutual_swap;
 
             // Only few architectures provide swap operations, and only for few register groups.
             if (arch_traits.has_inst_reg_swap(cur_group)) {
@@ -281,6 +280,10 @@ EmitMove:
 
               OperandSignature signature = RegUtils::signature_of(highest_type);
               ASMJIT_PROPAGATE(emit_reg_swap(Reg(signature, out_id), Reg(signature, cur_id)));
+
+              if (clear_postponed) {
+                work_flags &= ~uint32_t(kWorkPostponed);
+              }
 
               // A swapped value that must still be sign or zero extended stays pending - the next pass extends it in place.
               auto needs_extension = [](const Var& v) noexcept {
@@ -318,6 +321,9 @@ EmitMove:
                   available_regs &= ~in_out_regs;
                 }
                 out_id = Support::ctz(available_regs);
+                if (clear_postponed) {
+                  work_flags &= ~uint32_t(kWorkPostponed);
+                }
                 goto EmitMove;
               }
               else {
